@@ -3,7 +3,7 @@ from __future__ import annotations
 
 from typing import Any, Dict, List, Optional, Tuple
 
-from .terms import Term
+from .terms import Term, fresh_uid
 from .load import AnalysisError, FuncInfo
 
 
@@ -156,6 +156,9 @@ class FrameInfo:
     def __init__(self, fi: FuncInfo, closure_frame: Optional[int], self_term=None):
         self.fi = fi
         self.closure_frame = closure_frame
+        self.uid = fresh_uid()  # identity of this activation: a closure made here that outlives it keeps the frame's final variables
+        self.made_closure = False
+        self.captured: Optional[Dict[str, Term]] = None  # variables of the (finished) defining activation, for a closure called after it returned
         self.returns: List[Tuple[Term, State]] = []
         self.yields: Optional[int] = None  # oid of the HList collecting yields
         self.self_term = self_term
